@@ -47,6 +47,18 @@ func bodyFingerprint(info *types.Info, fd *ast.FuncDecl) string {
 // fingerprintAndLocals: the fingerprint and the function's receiver, parameters, results and locals
 // in the order in which the fingerprint numbers them.
 func fingerprintAndLocals(info *types.Info, fd *ast.FuncDecl) (string, []types.Object) {
+	text, order := normalisedBody(info, fd)
+	if text == "" {
+		return "", nil
+	}
+	h := sha256.Sum256([]byte(text))
+	return hex.EncodeToString(h[:12]), order
+}
+
+// normalisedBody renders a function (signature types and body) with its receiver, parameters, results
+// and locals numbered in order of appearance and the names of unexported functions of the same
+// package abstracted: two functions with the same text differ only in those names.
+func normalisedBody(info *types.Info, fd *ast.FuncDecl) (string, []types.Object) {
 	if fd.Body == nil || info == nil {
 		return "", nil
 	}
@@ -136,8 +148,7 @@ func fingerprintAndLocals(info *types.Info, fd *ast.FuncDecl) (string, []types.O
 		}
 		return true
 	})
-	h := sha256.Sum256([]byte(sb.String()))
-	return hex.EncodeToString(h[:12]), order
+	return sb.String(), order
 }
 
 func anchorKey(pkgPath, recv, name string) string { return pkgPath + "|" + recv + "|" + name }
